@@ -289,6 +289,10 @@ Proof.
     destruct W as (_ & _ & Wr). auto.
   - (* FAILWITH *)
     simpl. split; [reflexivity|intros; discriminate].
+  - (* DIP: not a flat instruction *)
+    simpl. split; [reflexivity|intros; discriminate].
+  - (* IF_NONE: not a flat instruction *)
+    simpl. split; [reflexivity|intros; discriminate].
 Qed.
 
 (* outcomes related by [canon]: both finish (canonical images equal, same outputs) or both fail *)
@@ -306,18 +310,125 @@ Definition mrel (a b : outcome session) : Prop :=
   | _, _ => False
   end.
 
+(* induction on instructions with access to the hypothesis for the nested bodies *)
+Definition flat (i : minstr) : Prop := match i with MDip _ | MIfNone _ _ => False | _ => True end.
+
+Section MinstrInd.
+  Variable P : minstr -> Prop.
+  Hypothesis Hflat : forall i, flat i -> P i.
+  Hypothesis HDip : forall b, Forall P b -> P (MDip b).
+  Hypothesis HIf : forall bt bf, Forall P bt -> Forall P bf -> P (MIfNone bt bf).
+
+  Fixpoint minstr_ind' (i : minstr) : P i :=
+    let fix go (l : list minstr) : Forall P l :=
+        match l with
+        | [] => Forall_nil P
+        | x :: r => Forall_cons x (minstr_ind' x) (go r)
+        end in
+    match i with
+    | MDip b => HDip b (go b)
+    | MIfNone bt bf => HIf bt bf (go bt) (go bf)
+    | MPush t l => Hflat (MPush t l) I
+    | MDrop => Hflat MDrop I | MDup => Hflat MDup I | MSwap => Hflat MSwap I | MPair => Hflat MPair I
+    | MUnpair => Hflat MUnpair I | MCar => Hflat MCar I | MCdr => Hflat MCdr I | MSome => Hflat MSome I
+    | MNone t => Hflat (MNone t) I | MNil t => Hflat (MNil t) I | MUnit => Hflat MUnit I
+    | MEmptyBigMap k v => Hflat (MEmptyBigMap k v) I | MUpdate => Hflat MUpdate I | MGet => Hflat MGet I
+    | MGetAndUpdate => Hflat MGetAndUpdate I | MAdd => Hflat MAdd I | MFailwith => Hflat MFailwith I
+    end.
+End MinstrInd.
+
+Lemma mexec_flat i s :
+  flat i -> mexec i s = match mstep i s with Some s' => Done s' | None => Failed s end.
+Proof. destruct i; simpl; intro F; try contradiction; reflexivity. Qed.
+
+Lemma mexec_dip body s :
+  mexec (MDip body) s =
+  match s_stack s with
+  | a :: r =>
+      match mrun body (with_stack s r) with
+      | Done s' => Done (with_stack s' (a :: s_stack s'))
+      | Failed f => Failed f
+      end
+  | [] => Failed s
+  end.
+Proof. reflexivity. Qed.
+
+Lemma mexec_ifnone bt bf s :
+  mexec (MIfNone bt bf) s =
+  match s_stack s with
+  | GNone _ :: r => mrun bt (with_stack s r)
+  | GSome a :: r => mrun bf (with_stack s (a :: r))
+  | _ => Failed s
+  end.
+Proof. reflexivity. Qed.
+
+Definition Pm (i : minstr) : Prop := forall s,
+  swf s ->
+  mrel (mexec i s) (mexec i (canon s)) /\
+  (forall s', mexec i s = Done s' -> swf s' /\ frame s s').
+
+Lemma mrun_forall l : Forall Pm l -> forall s,
+  swf s ->
+  mrel (mrun l s) (mrun l (canon s)) /\
+  (forall s', mrun l s = Done s' -> swf s' /\ frame s s').
+Proof.
+  induction 1 as [|i r Hi Hr IH]; intros s W; simpl.
+  - split; [reflexivity|]. intros s' E. injection E as <-. auto using frame_refl.
+  - destruct (Hi s W) as [R1 R2].
+    destruct (mexec i s) as [s1|sf], (mexec i (canon s)) as [c1|cf]; simpl in R1; try contradiction.
+    + subst c1. destruct (R2 s1 eq_refl) as [W1 F1]. destruct (IH s1 W1) as [R3 R4].
+      split; [exact R3|]. intros s' E. destruct (R4 s' E) as [W' F']. eauto using frame_trans.
+    + split; [exact I|]. intros; discriminate.
+Qed.
+
+Lemma mexec_canon : forall i, Pm i.
+Proof.
+  apply minstr_ind'.
+  - (* flat instructions *)
+    intros i F s W. rewrite !(mexec_flat i _ F).
+    destruct (mstep_canon i s W) as [E1 E2]. rewrite E1.
+    destruct (mstep i s) as [s1|]; simpl; [|split; [exact I|intros; discriminate]].
+    split; [reflexivity|]. intros s' E. injection E as <-. auto.
+  - (* DIP *)
+    intros body Hb s W. rewrite !mexec_dip.
+    destruct s as [st cur ctx stale nxt]. destruct st as [|a r]; simpl s_stack; [split; [exact I|intros; discriminate]|].
+    simpl map. unfold swf in W. simpl in W. destruct W as [Wa Wr].
+    assert (W0 : swf (with_stack (mkS (a :: r) cur ctx stale nxt) r)) by exact Wr.
+    destruct (mrun_forall body Hb _ W0) as [R1 R2].
+    change (with_stack (canon (mkS (a :: r) cur ctx stale nxt)) (map cz r))
+      with (canon (with_stack (mkS (a :: r) cur ctx stale nxt) r)).
+    destruct (mrun body (with_stack (mkS (a :: r) cur ctx stale nxt) r)) as [s1|sf],
+             (mrun body (canon (with_stack (mkS (a :: r) cur ctx stale nxt) r))) as [c1|cf];
+      simpl in R1; try contradiction.
+    + subst c1. destruct (R2 s1 eq_refl) as [W1 [C1 N1]]. simpl in C1, N1.
+      split; [reflexivity|]. intros s' E. injection E as <-. unfold swf, frame. simpl.
+      unfold swf in W1. rewrite C1 in W1. rewrite C1. repeat split; auto.
+    + split; [exact I|]. intros; discriminate.
+  - (* IF_NONE *)
+    intros bt bf Ht Hf s W. rewrite !mexec_ifnone.
+    destruct s as [st cur ctx stale nxt]. destruct st as [|top r]; simpl s_stack; [split; [exact I|intros; discriminate]|].
+    simpl map. unfold swf in W. simpl in W. destruct W as [Wt Wr].
+    destruct top; simpl cz; try (split; [exact I|intros; discriminate]).
+    + (* None *)
+      assert (W0 : swf (with_stack (mkS (GNone t :: r) cur ctx stale nxt) r)) by exact Wr.
+      destruct (mrun_forall bt Ht _ W0) as [R1 R2].
+      change (with_stack (canon (mkS (GNone t :: r) cur ctx stale nxt)) (map cz r))
+        with (canon (with_stack (mkS (GNone t :: r) cur ctx stale nxt) r)).
+      split; [exact R1|]. intros s' E. destruct (R2 s' E) as [W' F']. split; [exact W'|exact F'].
+    + (* Some *)
+      assert (W0 : swf (with_stack (mkS (GSome top :: r) cur ctx stale nxt) (top :: r))) by (split; assumption).
+      destruct (mrun_forall bf Hf _ W0) as [R1 R2].
+      change (with_stack (canon (mkS (GSome top :: r) cur ctx stale nxt)) (gmap (set_ctx 0) top :: map cz r))
+        with (canon (with_stack (mkS (GSome top :: r) cur ctx stale nxt) (top :: r))).
+      split; [exact R1|]. intros s' E. destruct (R2 s' E) as [W' F']. split; [exact W'|exact F'].
+Qed.
+
 Lemma mrun_canon l : forall s,
   swf s ->
   mrel (mrun l s) (mrun l (canon s)) /\
   (forall s', mrun l s = Done s' -> swf s' /\ frame s s').
 Proof.
-  induction l as [|i r IH]; intros s W; simpl.
-  - split; [reflexivity|]. intros s' E. injection E as <-. auto using frame_refl.
-  - destruct (mstep_canon i s W) as [E1 E2]. rewrite E1.
-    destruct (mstep i s) as [s1|]; simpl.
-    + destruct (E2 s1 eq_refl) as [W1 F1]. destruct (IH s1 W1) as [R1 R2].
-      split; [exact R1|]. intros s' E. destruct (R2 s' E) as [W' F']. eauto using frame_trans.
-    + split; [exact I|]. intros; discriminate.
+  apply mrun_forall. apply Forall_forall. intros i _. apply mexec_canon.
 Qed.
 
 (* attach_context: new big_maps are attached to the current context *)
@@ -448,9 +559,9 @@ Lemma istep_canon i s :
 Proof.
   intro W. destruct i; simpl.
   - (* Michelson *)
-    destruct (mstep_canon m s W) as [E1 E2]. rewrite E1.
-    destruct (mstep m s) as [s1|]; simpl.
-    + split; [split; reflexivity|]. intros s' o E. injection E as <- _. auto.
+    destruct (mexec_canon m s W) as [R1 R2].
+    destruct (mexec m s) as [s1|sf], (mexec m (canon s)) as [c1|cf]; simpl in R1; try contradiction.
+    + subst c1. split; [split; reflexivity|]. intros s' o E. injection E as <- _. auto.
     + split; [exact I|]. intros; discriminate.
   - split; [split; reflexivity|]. intros s' o E. injection E as <- _. split; [exact W|split; reflexivity].
   - split; [split; reflexivity|]. intros s' o E. injection E as <- _. split; [exact W|split; reflexivity].
